@@ -44,10 +44,15 @@ theorem C10_no_deadlock (wv : WriteFn) (p : Prog) (h : NoNesting p) (sched : Lis
 
 /-- An enabled thread really moves: its next action is consumed. -/
 theorem C10_enabled_progress (wv : WriteFn) (s : State) (i : Nat) (h : Enabled s i) :
-    ∃ a r, s.rem[i]? = some (a :: r) ∧ (step wv s i).rem = s.rem.set i r := by
-  obtain ⟨a, r, hr, hen⟩ := h
-  refine ⟨a, r, hr, ?_⟩
-  cases a <;> simp_all [step]
+    ∃ a r, s.rem[i]? = some (a :: r) ∧ (step wv s i).rem = s.rem.set i r :=
+  enabled_step_rem wv s i h
+
+/-- … until all are done: whatever has been scheduled so far, the run can be completed (every
+thread finishes all its calls; nobody is blocked for ever). -/
+theorem C10_can_finish (wv : WriteFn) (p : Prog) (h : NoNesting p) (sched : List Nat) :
+    ∃ more : List Nat, AllDone (run wv p (sched ++ more)) := by
+  obtain ⟨more, hm⟩ := finv_can_finish wv _ (run wv p sched) (finv_runFrom wv sched _ (finv_init p h)) rfl
+  exact ⟨more, by simpa [run, runFrom, List.foldl_append] using hm⟩
 
 /-- Every operation one critical section ⇒ every reachable state is a sequential state plus a
 proper prefix of one operation of one thread. -/
@@ -253,6 +258,25 @@ example : (schemaOf demo (runReqs demo emptyCache [3, 5]) 0).2 = .ok ∧
     [0, 1, 2].all (fun m => decide (find (schemaOf demo (runReqs demo emptyCache [3, 5]) 0).1 m = find (schemaOf demo emptyCache 0).1 m)) = true ∧
     find (runReqs demo emptyCache [3, 5]) 2 = some (some (shallow demo 2)) ∧ find (runReqs demo emptyCache [3, 5]) 4 = none := by decide
 example : Reachable demo (runReqs demo emptyCache [3, 5]) := reachable_runReqs demo _ Reachable.empty _
+/-- The algorithm as it was before `ccb2fec` (no roll-back of a failed build) is *not* transparent:
+X → Y, Y fails, Z → Y. After the failed request X the placeholder of Y stays registered, so Z
+"succeeds" with an unlinked reference although Z alone is rejected. (The witness of the fixed defect.) -/
+def schemaOfNoRollback (G : Graph) (c : Cache) (d : Nat) : Cache × Res :=
+  match find c d with
+  | some (some _) => (c, .ok)
+  | some none => (c, .err)
+  | none =>
+    let r := buildNode G (G.length + 1) (insert c d none) d
+    if r.2 then (setTo r.1 d (shallow G d), .ok) else (r.1, .err)
+
+def xyz : Graph := [⟨.obj, true, [⟨1, "", .ref 1⟩]⟩, ⟨.obj, true, [⟨1, "", .bad⟩]⟩, ⟨.obj, true, [⟨1, "", .ref 1⟩]⟩]
+
+example : (schemaOfNoRollback xyz emptyCache 2).2 = .err ∧
+    (schemaOfNoRollback xyz (schemaOfNoRollback xyz emptyCache 0).1 2).2 = .ok ∧
+    find (schemaOfNoRollback xyz (schemaOfNoRollback xyz emptyCache 0).1 2).1 1 = some none := by decide
+/-- … and with the roll-back the same history answers as alone -/
+example : (schemaOf xyz (schemaOf xyz emptyCache 0).1 2).2 = .err ∧ (schemaOf xyz (schemaOf xyz emptyCache 0).1 2).1 = [] := by decide
+
 example : GoodFrom demo 2 := by
   intro m hm
   cases hm with
